@@ -316,17 +316,26 @@ def nondegenerate_surface(V, F, require_planar_polys=True):
 
 
 def vertex_normals_defined(V, F):
-    """the uniform sum of unit face normals is not (nearly) zero at any vertex (float test; generator-side only)"""
+    """the uniform, area-weighted and angle-weighted sums of unit face normals are not (nearly) zero at any vertex
+    (float test; generator-side only)"""
+    import math
     acc = {}
     for f in F:
         p = [V[v] for v in f[:3]]
         n = cross(sub(p[1], p[0]), sub(p[2], p[0]))
         l = float(dot(n, n)) ** 0.5
-        for v in f:
-            a = acc.setdefault(v, [0.0, 0.0, 0.0])
-            for k in range(3):
-                a[k] += n[k] / l
-    return all(sum(x * x for x in a) > 1e-2 for a in acc.values())
+        va = vector_area2([V[v] for v in f])
+        area = float(dot(va, va)) ** 0.5 / 2
+        k = len(f)
+        for i, v in enumerate(f):
+            u, w = sub(V[f[(i - 1) % k]], V[v]), sub(V[f[(i + 1) % k]], V[v])
+            cs = float(dot(u, w)) / (float(dot(u, u)) ** 0.5 * float(dot(w, w)) ** 0.5)
+            ang = math.acos(max(-1.0, min(1.0, cs)))
+            a = acc.setdefault(v, [[0.0, 0.0, 0.0] for _ in range(3)])
+            for j, wt in enumerate((1.0, area, ang)):
+                for c in range(3):
+                    a[j][c] += wt * n[c] / l
+    return all(sum(x * x for x in aj) > 1e-2 for a in acc.values() for aj in a)
 
 
 def gen_surface(rng, size):
